@@ -991,6 +991,9 @@ class Exec:
     def s_For(self, st, s):
         spec = self.loops.get(id(s))
         if spec is None:
+            r = self._for_concrete(st, s)
+            if r is not None:
+                return r
             raise OutOfSubset('for loop at line %d has no sidecar invariant' % s.lineno)
         if s.orelse:
             raise OutOfSubset('for/else')
@@ -1031,6 +1034,34 @@ class Exec:
         if self.feasible(ex):
             res.append(Outcome('next', ex))
         return res
+
+    def _for_concrete(self, st, s):
+        """a `for` over a sequence with statically known items (a tuple display, a literal list) and no sidecar invariant is
+        executed concretely, item by item: complete, no invariant needed.  Returns None when the items are not known."""
+        if s.orelse:
+            return None
+        probe = st.fork()
+        try:
+            it = self.eval(probe, s.iter)
+        except OutOfSubset:
+            return None
+        items = it.items if it.kind == 'tuple' else self._dispatch('concrete_items', probe, it)
+        if items is NotImplemented or items is None or probe.pending or len(items) > 64:
+            return None
+        res, live = [], [st]
+        for item in items:
+            nxt = []
+            for cur in live:
+                self.assign(cur, s.target, item, s)
+                for o in self.run_block(cur, s.body):
+                    if o.kind in ('next', 'continue'):
+                        nxt.append(o.st)
+                    elif o.kind == 'break':
+                        res.append(Outcome('next', o.st))
+                    else:
+                        res.append(o)
+            live = nxt
+        return res + [Outcome('next', c) for c in live]
 
     def s_Break(self, st, s):
         return [Outcome('break', st)]
